@@ -558,6 +558,13 @@ func runGuarded(outDir string, t target, b []byte) (accepted bool) {
 	case v := <-done:
 		return v == 1
 	case <-time.After(5 * time.Second):
+		// slow is not hung: on a loaded machine a decoder run can be descheduled for seconds.  A hang is a run that does not
+		// finish at all - it gets two more minutes before it is reported.
+		select {
+		case v := <-done:
+			return v == 1
+		case <-time.After(120 * time.Second):
+		}
 		st.Hangs++
 		sim.Direct(outDir, map[string]any{"finding": "hang-" + t.name, "kind": "decoder-hang", "decoder": t.name, "input_hex": sim.Hex(b)})
 		return false
